@@ -500,6 +500,12 @@ def conj_atoms(test: ast.AST, truth: bool) -> List[Tuple[ast.AST, bool]]:
         if isinstance(test.op, ast.Or) and not truth:
             return [x for v in test.values for x in conj_atoms(v, False)]
         return [(test, truth)]
+    # one spelling per fact: `x is not None` / `a != b` / `a not in b` are the negations of `x is None` / `a == b` / `a in b`
+    if isinstance(test, ast.Compare) and len(test.ops) == 1 and isinstance(test.ops[0], (ast.IsNot, ast.NotEq, ast.NotIn)):
+        pos = {ast.IsNot: ast.Is, ast.NotEq: ast.Eq, ast.NotIn: ast.In}[type(test.ops[0])]()
+        flipped = ast.Compare(left=test.left, ops=[pos], comparators=test.comparators)
+        ast.copy_location(flipped, test)
+        return [(flipped, not truth)]
     return [(test, truth)]
 
 
